@@ -22,13 +22,9 @@ LEAN_MODULES = ['VotelibProofs.Props.C14']
 GEN_MODULES = ['Divisor', 'Quota']
 
 REQUIRED = [
-    # dispatch flags
-    'dispatchFaithful_leaf', 'dispatchFaithful_conditioned', 'dispatchFaithful_byConstituency',
-    'dispatchFaithful_preApportioned', 'dispatchFaithful_removedApportionment', 'dispatchFaithful_byParty',
-    'dispatchFaithful_multistage', 'dispatchFaithful_unusedVotes', 'dispatchFaithful_fixedSeatCount',
-    'dispatchFaithful_tieBreaking', 'dispatchFaithful_preConverted', 'dispatchFaithful_postConverted',
-    'dispatchFaithful_votingSystem', 'dispatchFaithful_partyList', 'acceptsPrevGains_faithful',
-    # one law per wrapper (arbitrary sub-trees, node-local hypotheses)
+    # dispatch flags: after e582ee8 the truth for every tree (structural induction, arbitrary leaves)
+    'acceptsSeats_faithful', 'acceptsPrevGains_faithful', 'acceptsMaxSeats_faithful', 'dispatchFaithful_all',
+    # one law per wrapper (arbitrary sub-trees, node-local typing hypotheses only)
     'fixedSeatCount_law', 'conditioned_law', 'preConverted_law', 'postConverted_law', 'votingSystem_law',
     'byConstituency_law', 'preApportioned_law', 'removedApportionment_law', 'byParty_law', 'multistage_law',
     'unusedVotes_law', 'tieBreaking_law', 'partyList_law',
@@ -38,15 +34,19 @@ REQUIRED = [
     'agree_multistage', 'agree_unusedVotes', 'agree_tieBreaking', 'agree_partyList', 'agree_tree', 'agree_stages',
     # arbitrary nesting
     'laws_compose', 'laws_compose_restrict', 'denote_tolerant',
-    # ideal readings, witnesses of the repaired and of the open defects
-    'conditioned_ideal', 'fix_904ccca_now', 'fix_904ccca_before_witness', 'partyList_prev_gains_dropped_witness',
-    'generic_over_seatless_witness', 'conditioned_none_seats_witness', 'byConstituency_all_zero_witness',
-    'byConstituency_missing_district_witness', 'byConstituency_max_seats_forced_witness',
+    # ideal readings; before/after witnesses of the repaired defects; witnesses of the two open ones
+    'conditioned_ideal', 'fix_904ccca_now', 'fix_904ccca_before_witness',
+    'fix_e582ee8_partyList_now', 'fix_e582ee8_partyList_before_witness',
+    'fix_e582ee8_generic_now', 'fix_e582ee8_generic_before_witness',
+    'fix_9f4a9df_all_zero_now', 'fix_9f4a9df_all_zero_before_witness',
+    'fix_9f4a9df_missing_district_now', 'fix_9f4a9df_missing_district_before_witness',
+    'fix_e582ee8_max_seats_now', 'fix_e582ee8_max_seats_before_witness',
+    'fix_e582ee8_byParty_seatless_now', 'fix_e582ee8_byParty_seatless_before_witness',
+    'conditioned_none_seats_witness', 'byParty_max_seats_forced_witness',
     # what the laws say
     'multistage_chain', 'multistage_nil', 'tieBreaking_noTie_sel', 'tieBreaking_noTie_dist', 'tieChoice_among',
     'tieBreaking_ideal', 'replaceSel_eq_fill', 'fillTie_other_places', 'fillTie_length', 'collectSel_count',
-    'byParty_none_seats_witness',
-    'byConstituency_ideal', 'byConstituency_pointwise', 'district_evaluated', 'district_without_seats',
+    'byConstituency_total', 'byConstituency_pointwise', 'district_evaluated', 'district_without_seats',
     'partyList_seats_exactly', 'closedList_ok',
     'chain_cons', 'chain_nil',
 ]
@@ -1404,11 +1404,15 @@ UNPROVED = [
     'byParty_ideal / unusedVotes_ideal: no separate more-demanding reading is stated for these two wrappers beyond their laws',
 ]
 ASSUMPTIONS = [
-    'WellFormed t (decidable, static): every part can take what its wrapper hands it (stages of a multi-stage distributor '
-    'take seats, prev_gains and max_seats; an apportioner given as evaluator takes a seat count; an allocator takes '
-    'prev_gains and max_seats) and at every place where core.py consults accepts_seats / accepts_prev_gains the answer '
-    'equals what the part takes; trees outside it are exactly the recorded open findings (witness theorems)',
+    'WellFormed t (decidable, static, typing only): a part is given only what its wrapper hands over unconditionally — '
+    'FixedSeatCount / tiebreaker / district evaluator / party evaluator / unused-votes stage take a seat count; stages of '
+    'a MultistageDistributor, the inner evaluator of PreApportioned / RemovedApportionment and a ByParty allocator take '
+    'seats, prev_gains and max_seats; an apportioner given as evaluator takes a seat count.  Since e582ee8 NOTHING about '
+    'the dispatch flags is assumed (dispatchFaithful_all).  The only defect left outside it is the ByParty allocator that '
+    'accepts prev_gains but not max_seats (byParty_max_seats_forced_witness)',
     'a.fits (takes t): the call gives the tree no argument it cannot take',
+    'laws_compose is about the laws as the code reads them; the one remaining difference to the ideal reading is '
+    'Conditioned forwarding its default n_seats=None (conditioned_ideal + conditioned_none_seats_witness)',
 ]
 RULE = ('wrapper trees of 0-4 wrapper levels over Plurality / InputOrderSelector / HighestAverages(5 divisors) / Absolute-, Relative-, '
         'PreviousGain-threshold; 2-5 parties, 1-4 constituencies, votes from tie-forcing small sets (x1, x5, x100, some Fractions), '
@@ -1420,18 +1424,19 @@ TECHNIQUE = ('Lean 4 deep embedding of the wrapper algebra (interpreter with sig
              'per wrapper and by structural induction for arbitrary nesting and arbitrary leaves) + differential correspondence '
              'wrapper / hand composition / Lean interpreter on random well-typed trees')
 LEVEL_TEXT = ('core.py\'s thirteen wrapper classes are modelled as a deep embedding in Lean (nested Python values, converters, evaluator '
-              'trees with ABSTRACT leaves, an interpreter that mirrors each evaluate method including accepts_seats / accepts_prev_gains '
-              'as inspect.signature computes them and Python\'s strict argument binding).  Separately written laws (no dispatch flags; '
-              'every part is handed everything and takes what it takes) state the property; for every wrapper the interpreter equals its '
-              'law for arbitrary sub-trees under node-local decidable conditions, and by structural induction a well-formed tree of any '
-              'depth over any leaves evaluates to the composition of its parts (laws_compose).  The more demanding readings of the '
-              'statement (omitted seat count stays omitted; unmentioned constituency has no seats; tie places filled in order; exactly '
-              'as many list candidates as seats won) are proved equal to the laws under explicit decidable conditions, with '
-              'decide-checked witnesses outside them, which are the recorded open findings.  The model is tied to /repo by a three-way '
-              'differential check (wrapper, hand composition with the same leaf objects, Lean interpreter) on random typed trees, and the '
-              'hard-coded dispatch flags are compared with votelib\'s on the live objects of every case.')
+              'trees with ABSTRACT leaves, an interpreter that mirrors each evaluate method including accepts_seats / accepts_prev_gains / '
+              'accepts_max_seats as inspect.signature computes them after e582ee8, and Python\'s strict argument binding).  Separately '
+              'written laws (no dispatch flags; every part is handed everything and takes what it takes) state the property.  The three '
+              'flags are proved to be the truth for EVERY tree; for every wrapper the interpreter equals its law for arbitrary sub-trees '
+              'under node-local typing conditions, and by structural induction a well-formed tree of any depth over any leaves evaluates '
+              'to the composition of its parts (laws_compose).  The more demanding readings (omitted seat count stays omitted; tie '
+              'places filled in order; exactly as many list candidates as seats won; each constituency separately) are proved under '
+              'explicit decidable conditions; every repaired defect has a before/after pair of decide-checked witnesses, the two open '
+              'ones a witness.  The model is tied to /repo by a three-way differential check (wrapper, hand composition with the same '
+              'leaf objects, Lean interpreter) on random typed trees, and the hard-coded dispatch flags are compared with votelib\'s on '
+              'the live objects of every case.')
 LEVEL_NOTE = ('Trusted: Lean kernel + propext/Classical.choice/Quot.sound; the correspondence harness and its generator bounds (depth <= 4, '
               'six leaf classes, closed lists); inspect.signature itself (flags hard-coded per class, cross-checked on every case); the '
-              'shared HighestAverages / get_n_best models as leaves.  Nine open findings (all argument-forwarding defects of the kind the '
-              'property names) are matched by (wrapper, input class) signatures; a proposed patch for seven of them is in '
-              'notes/proposed_fix_C14_dispatch_and_districts.diff.')
+              'shared HighestAverages / get_n_best models as leaves.  Two open findings (Conditioned forwards its default n_seats=None; '
+              'ByParty hands max_seats to an allocator that accepts prev_gains only) are matched by (wrapper, input class) signatures; '
+              'twelve fixed entries (904ccca, 3968d16, caf8ac3, 9f4a9df, e582ee8) are replayed on every run.')
